@@ -86,6 +86,10 @@ PureDiagram ==
 
 \* ---------------------------------------------------------------- C06
 TolCritLam == "1e-6"
+ThirdDerivative(case, what, q) ==
+  (q.ok /\ Has(q, "neighbours") /\ Len(q.neighbours) = 4) =>
+     LET lam == [k \in 1..4 |-> LamMin(q.neighbours[k])] IN
+     Chk("C06.mixture_criticality_third_derivative", <<case, what, Stencil4(lam, q.eps), l>>, Stencil4(lam, q.eps), "0", "1", "0", "1e-3")
 Critical ==
   /\ Ev("Critical")
   /\ (E.calibrated => Report("C06.found", <<E.case, E.kind, l>>, E.ok))
@@ -107,7 +111,15 @@ Critical ==
              /\ (E.at_T.ok => Report("C06.binary_at_T", <<E.case, E.at_T.state.T, s.T, LamMin(E.at_T.state), l>>,
                                      FEq(E.at_T.state.T, s.T) /\ FLe(FAbs(LamMin(E.at_T.state)), TolCritLam)))
              /\ (E.at_p.ok => Report("C06.binary_at_p", <<E.case, E.at_p.state.p, s.p, LamMin(E.at_p.state), l>>,
-                                     FClose(E.at_p.state.p, s.p, "1e-7", FAbs(s.p), "0") /\ FLe(FAbs(LamMin(E.at_p.state)), TolCritLam)))))
+                                     FClose(E.at_p.state.p, s.p, "1e-7", FAbs(s.p), "0") /\ FLe(FAbs(LamMin(E.at_p.state)), TolCritLam)))
+             \* a critical point returned for a given T or p satisfies the second criticality condition as well (probe along its own eigenvector)
+             /\ ThirdDerivative(E.case, "at given T", E.at_T)
+             /\ ThirdDerivative(E.case, "at given p", E.at_p)
+             /\ (Has(E, "at_p_more") => \A k \in 1..Len(E.at_p_more) :
+                    LET q == E.at_p_more[k] IN
+                    /\ (q.ok => Report("C06.binary_at_p", <<E.case, q.x_ref, q.state.p, q.p_spec, LamMin(q.state), l>>,
+                                        FClose(q.state.p, q.p_spec, "1e-7", FAbs(q.p_spec), "0") /\ FLe(FAbs(LamMin(q.state)), TolCritLam)))
+                    /\ ThirdDerivative(E.case, <<"at given p", q.x_ref>>, q))))
   /\ cnt' = BumpAll(cnt, {"critical:" \o E.kind} \cup (IF E.ok THEN {"critical_ok:" \o E.kind} ELSE {}))
   /\ UNCHANGED lastBubble
 
@@ -230,6 +242,19 @@ Flash ==
      /\ cnt' = BumpAll(cnt, {"flashes"} \cup (IF r.ok THEN {"flashes_ok"} ELSE {}))
   /\ UNCHANGED lastBubble
 
+\* Tp flash with components declared non-volatile (ions): whenever it returns phases they share T and p, the volatile components have the same
+\* fugacity in both phases (CIsoFug skips components absent from a phase), the non-volatile ones are absent from the vapor, the feed is conserved.
+FlashNvc ==
+  /\ Ev("FlashNvc")
+  /\ LET r == E.res
+         info == <<E.case, E.T, E.p, E.feed, E.grid>>
+     IN
+     /\ TwoPhase("C05", "flash with non-volatile components", info, r, TolFlash)
+     /\ FlashLaws("non-volatile components", info, r, E.T, E.p, E.feed)
+     /\ (r.ok => Report("C05.nonvolatile_absent_from_vapor", <<info, r.v.N, l>>, \A k \in 1..Len(E.nonvolatile) : FEq(r.v.N[E.nonvolatile[k]], "0") /\ FEq(r.v.x[E.nonvolatile[k]], "0")))
+     /\ cnt' = BumpAll(cnt, {"flashes_nonvolatile"} \cup (IF r.ok THEN {"flashes_nonvolatile_ok"} ELSE {}))
+  /\ UNCHANGED lastBubble
+
 FlashOutside ==
   /\ Ev("FlashOutside")
   /\ TwoPhase("C05", "flash outside", <<E.case, E.T, E.p>>, E.res, TolFlash)
@@ -320,7 +345,7 @@ Stability ==
 LleSkip == /\ Ev("LleSkip") /\ cnt' = Bump(cnt, "lle_skipped") /\ UNCHANGED lastBubble
 
 Init == l = 1 /\ cnt = NoCount /\ lastBubble = <<>>
-Next == /\ (PureVle \/ PureDiagram \/ Critical \/ CriticalPR \/ Spinodal \/ BubbleDew \/ Flash \/ FlashSweep \/ FlashOutside \/ BinaryDiagram \/ Stability \/ LleSkip \/ EnvelopeLine \/ Hetero)
+Next == /\ (PureVle \/ PureDiagram \/ Critical \/ CriticalPR \/ Spinodal \/ BubbleDew \/ Flash \/ FlashNvc \/ FlashSweep \/ FlashOutside \/ BinaryDiagram \/ Stability \/ LleSkip \/ EnvelopeLine \/ Hetero)
         /\ (l' > NRec => PrintT("STATS " \o ToJson(cnt')))
 TraceSpec == Init /\ [][Next]_vars
 ================================================================================
